@@ -279,6 +279,16 @@ func genReprCase(r *rng, id string) *ValCase {
 			docs = append(docs, a)
 		}
 		docs = append(docs, DArr{DNum("1"), DNum("2")})
+		if r.chance(1, 2) {
+			// three entries in one bucket: unequal values whose hash streams coincide under every
+			// seed, around a real duplicate (x y x) - and without one (x y)
+			cp := pick(r, [][2]Doc{{DNull{}, DBool(false)}, {DBool(true), DStr("\x01")}, {DArr{DStr("a"), DStr("b")}, DArr{DStr("ab"), DStr("")}}})
+			x, y := cp[0], cp[1]
+			if r.chance(1, 2) {
+				x, y = y, x
+			}
+			docs = append(docs, DArr{x, y, x}, DArr{x, y}, DArr{DNum("7"), x, y, y})
+		}
 	} else if r.chance(1, 6) {
 		// property names that look like numbers (maps keyed by json.Number carry them too): a name
 		// is a string for propertyNames / patternProperties and for object equality
